@@ -184,6 +184,96 @@ template<class G> struct Pred {
         r=t.minus(s2,ja,jb); o.mat(ja); o.mat(J(J::Identity())); o.mat(jb); o.mat(J(-J::Identity())); }
       return true;
     }
+    if(op=="P09"){   // C09: X, Y, t, p — optional outputs are transparent; operations are pure and deterministic
+      G X=mkG(c.args[0]), Y=mkG(c.args[1]); T t=mkT(c.args[2]); Vec p=vec_from<S,Vec>(c.args[3]);
+      using Jam = Eigen::Matrix<S, G::Dim, G::DoF>; using Jav = Eigen::Matrix<S, G::Dim, G::Dim>;
+      const DG X0=X.coeffs(), Y0=Y.coeffs(); const DT t0=t.coeffs(); const Vec p0=p;
+      // (value, Ja, Jb) of a two-output operation under the four request masks
+#define SUBSETS(NAME, VT, CALL0, CALLA, CALLB, CALLAB, JA_T, JB_T) { \
+        JA_T a1, a3; JB_T b2, b3; \
+        VT v0 = CALL0; VT v1 = CALLA(a1); VT v2 = CALLB(b2); VT v3 = CALLAB(a3,b3); \
+        o.mat(v1); o.mat(v0); o.mat(v2); o.mat(v0); o.mat(v3); o.mat(v0); o.mat(a1); o.mat(a3); o.mat(b2); o.mat(b3); }
+#define C1(a) X.compose(Y,a).coeffs()
+#define C2(b) X.compose(Y,G::_,b).coeffs()
+#define C3(a,b) X.compose(Y,a,b).coeffs()
+      SUBSETS("compose", DG, X.compose(Y).coeffs(), C1, C2, C3, J, J)
+#undef C1
+#undef C2
+#undef C3
+#define C1(a) X.between(Y,a).coeffs()
+#define C2(b) X.between(Y,G::_,b).coeffs()
+#define C3(a,b) X.between(Y,a,b).coeffs()
+      SUBSETS("between", DG, X.between(Y).coeffs(), C1, C2, C3, J, J)
+#undef C1
+#undef C2
+#undef C3
+#define C1(a) X.rplus(t,a).coeffs()
+#define C2(b) X.rplus(t,G::_,b).coeffs()
+#define C3(a,b) X.rplus(t,a,b).coeffs()
+      SUBSETS("rplus", DG, X.rplus(t).coeffs(), C1, C2, C3, J, J)
+#undef C1
+#undef C2
+#undef C3
+#define C1(a) X.lplus(t,a).coeffs()
+#define C2(b) X.lplus(t,G::_,b).coeffs()
+#define C3(a,b) X.lplus(t,a,b).coeffs()
+      SUBSETS("lplus", DG, X.lplus(t).coeffs(), C1, C2, C3, J, J)
+#undef C1
+#undef C2
+#undef C3
+#define C1(a) X.rminus(Y,a).coeffs()
+#define C2(b) X.rminus(Y,G::_,b).coeffs()
+#define C3(a,b) X.rminus(Y,a,b).coeffs()
+      SUBSETS("rminus", DT, X.rminus(Y).coeffs(), C1, C2, C3, J, J)
+#undef C1
+#undef C2
+#undef C3
+#define C1(a) X.lminus(Y,a).coeffs()
+#define C2(b) X.lminus(Y,G::_,b).coeffs()
+#define C3(a,b) X.lminus(Y,a,b).coeffs()
+      SUBSETS("lminus", DT, X.lminus(Y).coeffs(), C1, C2, C3, J, J)
+#undef C1
+#undef C2
+#undef C3
+#define C1(a) X.act(p,a)
+#define C2(b) X.act(p,tl::nullopt,b)
+#define C3(a,b) X.act(p,a,b)
+      SUBSETS("act", Vec, X.act(p), C1, C2, C3, Jam, Jav)
+#undef C1
+#undef C2
+#undef C3
+#undef SUBSETS
+      { J a1; G v0=X.inverse(), v1=X.inverse(a1); o.mat(v1.coeffs()); o.mat(v0.coeffs()); }
+      { J a1; T v0=X.log(), v1=X.log(a1); o.mat(v1.coeffs()); o.mat(v0.coeffs()); }
+      { J a1; G v0=t.exp(), v1=t.exp(a1); o.mat(v1.coeffs()); o.mat(v0.coeffs()); }
+      // an output bound to a block of a larger matrix writes exactly that block
+      { const int N = 2*G::DoF+3; Eigen::Matrix<S,N,N> big; for(int i=0;i<N;i++) for(int j=0;j<N;j++) big(i,j)=S(1000+i*N+j);
+        Eigen::Matrix<S,N,N> ref = big; J ja, jb; G r0 = X.compose(Y, ja, jb);
+        G r1 = X.compose(Y, big.template block<G::DoF,G::DoF>(1,2), big.template block<G::DoF,G::DoF>(G::DoF+2,1));
+        ref.template block<G::DoF,G::DoF>(1,2) = ja; ref.template block<G::DoF,G::DoF>(G::DoF+2,1) = jb;
+        o.mat(big); o.mat(ref); o.mat(r1.coeffs()); o.mat(r0.coeffs());
+        for(int i=0;i<N;i++) for(int j=0;j<N;j++) big(i,j)=S(1000+i*N+j); ref = big;
+        T l0 = X.rminus(Y, ja, jb); T l1 = X.rminus(Y, big.template block<G::DoF,G::DoF>(2,1), big.template block<G::DoF,G::DoF>(G::DoF+3,2));
+        ref.template block<G::DoF,G::DoF>(2,1) = ja; ref.template block<G::DoF,G::DoF>(G::DoF+3,2) = jb;
+        o.mat(big); o.mat(ref); o.mat(l1.coeffs()); o.mat(l0.coeffs()); }
+      // no operation modified its operands
+      o.mat(X.coeffs()); o.mat(X0); o.mat(Y.coeffs()); o.mat(Y0); o.mat(t.coeffs()); o.mat(t0); o.mat(p); o.mat(p0);
+      // the same call repeated after other library activity returns the identical result
+      { G a1 = X.compose(Y); T l1 = X.rminus(Y); J j1; X.log(j1);
+        (void)G::Identity(); (void)T::Zero(); (void)T::Generator(0); (void)T::InnerWeights(); (void)Y.compose(X).inverse().log().exp().adj(); (void)t.rjac(); (void)t.ljacinv();
+        G a2 = X.compose(Y); T l2 = X.rminus(Y); J j2; X.log(j2);
+        o.mat(a2.coeffs()); o.mat(a1.coeffs()); o.mat(l2.coeffs()); o.mat(l1.coeffs()); o.mat(j2); o.mat(j1); }
+      // results assigned back onto an operand equal the unaliased computation
+      { G Z=X; Z = Z*Z; o.mat(Z.coeffs()); o.mat(X.compose(X).coeffs()); }
+      { G Z=X; Z = Z.inverse(); o.mat(Z.coeffs()); o.mat(X.inverse().coeffs()); }
+      { G Z=X; Z *= Z; o.mat(Z.coeffs()); o.mat(X.compose(X).coeffs()); }
+      { G Z=X; Z = Z.compose(Y); o.mat(Z.coeffs()); o.mat(X.compose(Y).coeffs()); }
+      { G Z=Y; Z = X.compose(Z); o.mat(Z.coeffs()); o.mat(X.compose(Y).coeffs()); }
+      { DG buf = X.coeffs(); Eigen::Map<G> M(buf.data()); M += t; o.mat(buf); o.mat(X.rplus(t).coeffs()); }
+      { DG buf = X.coeffs(); Eigen::Map<G> M(buf.data()); M = M.between(Y); o.mat(buf); o.mat(X.between(Y).coeffs()); }
+      { T z=t; z = z + z; DT e2 = t.coeffs()+t.coeffs(); o.mat(z.coeffs()); o.mat(e2); }
+      return true;
+    }
     return false;
   }
 };
